@@ -31,14 +31,19 @@
      C09_red_curve                                                              -> C09_ex_red_curve
      C09_red_drop_at_limit                                                      -> C09_ex_red_drop_at_limit
      C09_red_avg_unchanged                                                      -> C09_ex_red_avg_unchanged
+   Props/C09_BridgeRun.v (Port.run as translated from the tree under test):
+     C09_gen_port_run_init, C09_gen_port_run_get, C09_gen_port_run_get_fields,
+       C09_gen_port_run_timer_fields, C09_gen_port_run_timer_explicit           -> C09_ex_gen_port_run
    Already witnesses (existential statements): C09_port_drop_rule_refuted_before_fix,
      C09_port_bytes_exact_refuted_before_fix, C09_port_perhop_stamp_refuted_before_fix,
      C09_red_perhop_stamp_refuted_before_fix, C09_monitor_samples_refuted_before_fix.
    Unconditional (nothing to witness): C09_port_unlimited_raises_before_fix (an equation for all states and packets);
      C09_gen_port_put, C09_gen_port_put_effects (Props/C09_Bridge.v), C09_gen_portmon_sample (Props/C09_BridgeMon.v),
-     C09_gen_red_put, C09_gen_red_put_avg, C09_gen_red_put_effects (Props/C09_BridgeRed.v). *)
+     C09_gen_red_put, C09_gen_red_put_avg, C09_gen_red_put_effects (Props/C09_BridgeRed.v);
+     C09_gen_port_run_timer, C09_gen_port_run_get_explicit (Props/C09_BridgeRun.v: for all configurations and states). *)
 From Coq Require Import ZArith QArith Qminmax List Bool Lia.
 From ONL Require Import Elem.Packet Elem.StoreQ Elem.Port Elem.Red Elem.PortProofs Elem.RedProofs.
+From ONL Require Import Gen.Extracted_port_run Elem.PortRunBridge.
 Import ListNotations.
 
 (* packet number u of flow 1 with the given size, created at t *)
@@ -421,3 +426,58 @@ Proof.
   split; [exact (red_avg_unchanged C09_cR s PStoreCb s' [] Ha Hn)|]. vm_compute; reflexivity.
 Qed.
 Print Assumptions C09_ex_red_avg_unchanged.
+
+(* ================================================================================================================ *)
+(* Props/C09_BridgeRun.v.
+   ---- hypotheses `psvc s = None`; `c_fix_rate0 c = true`; `port_run_step s (Some p) (port_gen_get c s p) = Some (s', outs)`;
+        `port_run_step s (Some p) (port_gen_timer c s p) = Some (s', outs)`; `psvc s = Some (p, dl)` ------------------------
+   covers C09_gen_port_run_init (s = port0 0), C09_gen_port_run_get, C09_gen_port_run_get_fields (the state of the Port
+   execution above in which the server resumes with p0 at t = 0: the translated code asks for a timeout of 8*8/64 = 1),
+   C09_gen_port_run_timer_fields, C09_gen_port_run_timer_explicit (the state at t = 1 in which that timeout is processed:
+   byte_size 24 - 8 = 16, out.put(p0), back to the get, which finds p1). *)
+Theorem C09_ex_gen_port_run :
+  let sg := C09_st C09_cP (firstn 3 C09_ex_acts) in
+  let sg1 := with_q sg (match sq_take (pq sg) with Some (_, q) => q | None => pq sg end) in
+  let sg' := C09_st C09_cP (firstn 4 C09_ex_acts) in
+  let st := C09_st C09_cP (firstn 10 C09_ex_acts) in
+  let st' := C09_st C09_cP (firstn 11 C09_ex_acts) in
+  psvc (port0 0) = None
+  /\ c_fix_rate0 C09_cP = true
+  /\ psvc sg1 = None
+  /\ port_run_step sg1 (Some C09_p0) (port_gen_get C09_cP sg1 C09_p0) = Some (sg', [])
+  /\ psvc st = Some (C09_p0, 1)
+  /\ port_run_step st (Some C09_p0) (port_gen_timer C09_cP st C09_p0) = Some (st', [OForward C09_p0])
+  (* conclusions *)
+  /\ port_act C09_cP (port0 0) PInit
+     = port_run_step (with_started (port0 0)) None (port_gen_init C09_cP (port0 0) 0 true)
+  /\ port_act C09_cP (port0 0) PInit <> None
+  /\ port_act C09_cP sg PGet = Some (sg', [])
+  /\ snd (port_gen_get C09_cP sg1 C09_p0) = NxYield (RqTimeout (inject_Z (8 * 8) / 64)) PP2
+  /\ port_run_fields sg' = fst (fst (port_gen_get C09_cP sg1 C09_p0))
+  /\ port_run_fields sg' = {| pr_byte_size := 8; pr_busy := 1; pr_busy_packet_size := 8 |}
+  /\ port_run_fields st' = fst (fst (port_gen_timer C09_cP st C09_p0))
+  /\ port_run_fields st' = {| pr_byte_size := 16; pr_busy := 0; pr_busy_packet_size := 0 |}
+  /\ (snd (fst (port_gen_timer C09_cP st C09_p0)) = [FxOutPut 1 (psize C09_p0) (pbytes st - psize C09_p0)] /\
+      snd (port_gen_timer C09_cP st C09_p0) = NxYield RqStoreGet PP1)
+  /\ pbytes st = 24%Z.
+Proof.
+  intros sg sg1 sg' st st'.
+  assert (H0 : psvc (port0 0) = None) by reflexivity.
+  assert (Hn : psvc sg1 = None) by (vm_compute; reflexivity).
+  assert (Hg : port_run_step sg1 (Some C09_p0) (port_gen_get C09_cP sg1 C09_p0) = Some (sg', [])) by (vm_compute; reflexivity).
+  assert (Hv : psvc st = Some (C09_p0, 1)) by (vm_compute; reflexivity).
+  assert (Ht : port_run_step st (Some C09_p0) (port_gen_timer C09_cP st C09_p0) = Some (st', [OForward C09_p0]))
+    by (vm_compute; reflexivity).
+  split; [exact H0|]. split; [reflexivity|]. split; [exact Hn|]. split; [exact Hg|]. split; [exact Hv|]. split; [exact Ht|].
+  split; [exact (bridge_port_run_init C09_cP (port0 0) 0 true H0)|].
+  split; [vm_compute; discriminate|].
+  split; [vm_compute; reflexivity|].
+  split; [vm_compute; reflexivity|].
+  split; [exact (port_run_step_fields_get C09_cP sg1 C09_p0 sg' [] Hn Hg)|].
+  split; [vm_compute; reflexivity|].
+  split; [exact (port_run_step_fields_timer C09_cP st C09_p0 st' _ Ht)|].
+  split; [vm_compute; reflexivity|].
+  split; [exact (port_run_timer_explicit C09_cP st C09_p0 1 Hv)|].
+  vm_compute; reflexivity.
+Qed.
+Print Assumptions C09_ex_gen_port_run.
